@@ -64,8 +64,7 @@ static Tree* g_tree;
 static const Scenario* g_sc;
 static int g_manifest_variant;
 static bool g_dead;                    // the simulated process has died: nothing ninja does persists any more (C07)
-static long g_persist_events, g_die_at = -1;
-static void persistence_event() { g_persist_events++; if (g_die_at >= 0 && g_persist_events > g_die_at && !g_dead) { g_dead = true; verif_vfs_freeze(1); } }
+static void persistence_event() { if (verif_vfs_event()) g_dead = true; }     // one event counter for DiskInterface and stdio/unistd mutations
 
 struct SymDisk : public DiskInterface {
   mutable int stats; int stat_fail_at; SymDisk() : stats(0), stat_fail_at(-1) {}
@@ -193,6 +192,7 @@ struct SymRunner : public CommandRunner {
     return (size_t)opt.parallelism > active.size() ? opt.parallelism - active.size() : 0; }
   static bool in(const std::vector<int>& v, int x) { for (size_t i = 0; i < v.size(); i++) if (v[i] == x) return true; return false; }
   bool StartCommand(Edge* e) override {
+    if (verif_vfs_frozen()) g_dead = true;
     Running r; r.edge = e; r.missing_input = false; r.phantom = g_dead;     // a dead ninja starts nothing: what it "starts" has no effect
     const CmdSpec* s = spec_for(e->outputs_[0]->path()); r.flags = s ? s->flags : 0;
     if (opt.start_may_fail && verif_bool("spawn_fails")) { events.push_back("spawnfail " + e->outputs_[0]->path()); return false; }
@@ -227,6 +227,7 @@ struct SymRunner : public CommandRunner {
   }
   BuildResult WaitForCommand() override {
     if (active.empty()) return BuildResult::Finished{};
+    if (verif_vfs_frozen()) g_dead = true;
     if (opt.check_idle && opt.builder && failures_seen < opt.failures_allowed && !opt.tokens && (int)active.size() < opt.parallelism)
       VERIF_ASSERT(opt.builder->plan_.ready_.empty(), "C06: ninja never waits while a startable command and a free slot exist");
     if (opt.may_interrupt && verif_bool("interrupt_now")) {
@@ -360,7 +361,7 @@ static InvocationResult invoke(const InvocationOpts& o) {
 // ------------------------------------------------------------------------------------------------ scenario set-up and the oracles shared by several properties
 static void init_tree(const Scenario* sc) {
   for (int i = 0; i < 16; i++) g_last[i] = LastRun();
-  g_sc = sc; g_tree = new Tree; g_manifest_variant = 0; g_dead = false; g_persist_events = 0; g_die_at = -1;
+  g_sc = sc; g_tree = new Tree; g_manifest_variant = 0; g_dead = false;
   std::vector<std::string> src = split_words(sc->sources);
   for (size_t i = 0; i < src.size(); i++) { VFile f; f.name = src[i]; f.exists = true; f.mtime = 1; f.content = 100 + 10 * (long)i; f.is_text = false; g_tree->files.push_back(f); }
 }
